@@ -1,5 +1,8 @@
 use vh::engine::{self, Ctx, Tier};
 
+#[global_allocator]
+static GLOBAL: vh::alloc::Counting = vh::alloc::Counting;
+
 fn main() {
     let args: Vec<String> = std::env::args().collect();
     if args.len() < 2 {
